@@ -11,14 +11,14 @@ from vlib.shard import Acc
 PROP = "C12"
 META = {
     "level": "exploration",
-    "claim": "Held on the executed runs: in histories mixing operations inside the root, outside it (another folder, prefix-sibling folders '/localX' '/local2', the account root) and moves across the boundary in both directions (files, and folders with children in windows of their own), with roots given by path or by id, event filtering on or off and a custom translate that declines a subfolder, every engine-issued create/mkdir/upload/rename/delete targets an object whose path (before and, for rename, after) lies inside that side's root by the harness's own component-wise test; everything outside the roots is byte-identical before and after every stretch of engine steps; the peer's root tree equals the dict model of the inside operations (moved out = deleted, moved in = created with its children); declined paths are untouched on both sides.",
+    "claim": "Held on the executed runs: in histories mixing operations inside the root, outside it (another folder, prefix-sibling folders '/localX' '/local2', the account root) and moves across the boundary in both directions (files, and folders with children in windows of their own), with roots given by path or by id, event filtering on or off and a custom translate that declines a subfolder, every engine-issued create/mkdir/upload/rename/delete targets an object whose path (before and, for rename, after) lies inside that side's root by the harness's own component-wise test; everything outside the roots is byte-identical before and after every stretch of engine steps; the peer's root tree equals the dict model of the inside operations (moved out = deleted, moved in = created with its children); declined paths are untouched on both sides; (DECL family) with a folder 'private' declined from the start on both sides (each side holding its own, partly same-named, files) and a folder 'late' that is synchronised first and declined from a flip point on, user edits/creates/deletes/renames inside the zones on either side and a synchronised file moved into a zone cause no effective engine write inside either zone on either side, each side's zones equal that side's own user model at the quiet state, and an undeclined control file keeps synchronising. Both sides modifying the same previously synchronised file of the late-declined folder is finding K23.",
     "note": "Trusted: the harness's own prefix test (split on '/', compare components), not Provider.is_subpath. One-sided histories (either side) so that the expected peer tree is a plain model; folder moves across the boundary are isolated by quiescence like folder renames elsewhere (hazard HD).",
     "technique": "runtime monitoring: call ledger with an independent inside-root predicate + outside-snapshot invariance + mirror model of inside operations",
     "plan": {"quick": {"shards": 16, "timeout": 600, "cases": 6000},
              "thorough": {"shards": 32, "timeout": 3000, "cases": 200000}},
     "rule": "case = one-sided history of 5-12 ops (inside ops, outside ops in 4 zones, move-out, move-in; files and folders) x "
             "flavour {oo, of, fo, pp, po, op} x root-by-path|root-by-id x translate {default, declines 'private'} x "
-            "schedule shape; distinct = distinct signature; non-trivial = >= 1 boundary crossing or outside op and >= 1 engine write",
+            "schedule shape; + cases//4 DECL histories (3-8 ops in/into declined zones by both sides, owner-disjoint) and cases//16 contested ones (K23 by predicate); distinct = distinct signature; non-trivial = >= 1 boundary crossing or outside op and >= 1 engine write",
     "assumptions": ["roots '/local' and '/remote'; outside zones '/other', '/localX', '/local2', account root"],
 }
 
@@ -269,10 +269,46 @@ def shard(ctx, acc):
                 acc.known_hit("K21", W.brief_case(case))
             else:
                 acc.violation("seek:" + probs[0][0], probs[:4], case)
+    _shard_decl(ctx, acc, plan)
+
+
+def _shard_decl(ctx, acc, plan):
+    from vlib import family as F
+    for i in F.indices(ctx, plan["cases"] // 4):
+        case = decl_case(ctx.seed, i)
+        probs = run_decl(case, acc)
+        if probs is None:
+            continue
+        if i < 2:
+            acc.sample({"family": case["family"], "flavour": case["flavour"],
+                        "ops": [[e[1]["side"], e[1]["op"], e[1]["path"]] for e in case["sched"] if e[0] == "U"]})
+        if probs:
+            acc.violation(probs[0][0], probs[:4], _decl_brief(case))
+    for i in F.indices(ctx, plan["cases"] // 16):
+        case = decl_case(ctx.seed, i, contest=True)
+        probs = run_decl(case, acc)
+        if probs is None:
+            continue
+        acc.count("decl_contest_cases")
+        if probs:
+            if case["k23"]:
+                acc.count("failures_attributed_K23")
+                acc.known_hit("K23", {"flavour": case["flavour"],
+                                      "ops": [[e[1]["side"], e[1]["op"], e[1]["path"]] for e in case["sched"] if e[0] == "U"]})
+            else:
+                acc.violation("seek:" + probs[0][0], probs[:4], _decl_brief(case))
+
+
+def _decl_brief(case):
+    c = dict(case)
+    c["decl"] = True
+    return c
 
 
 def conclusive(acc, tier):
     out = []
+    if not acc.counters.get("decl_cases") or not acc.counters.get("decl_engine_writes_after_flip"):
+        out.append("no declined-zone case ran (or the control file never synchronised)")
     if not acc.counters.get("boundary_crossings"):
         out.append("no boundary crossing was generated")
     if not acc.counters.get("outside_snapshots_compared"):
@@ -281,4 +317,206 @@ def conclusive(acc, tier):
 
 
 coverage_extra = E.coverage_extra
-replay = E.replay_with(lambda c: run(c, count=False))
+replay = E.replay_with(lambda c: run_decl(c, count=False) if c.get("decl") else run(c, count=False))
+
+
+# ------------------------------------------------------------------------------------------------ declined zones (DECL)
+# 'private' is declined from the start; 'late' is synchronised first and declined from a flip point on (a nested sync took
+# ownership of it - the situation the engine's own comment in embrace_change describes).  After the flip each side's copy of
+# a declined zone evolves by that side's user operations only.
+
+DECL_ZONES = ("private", "late")
+
+
+def _in_zone(rel, zones):
+    rel = rel.strip("/")
+    return any(rel == z or rel.startswith(z + "/") for z in zones)
+
+
+def decl_case(seed, index, contest=False):
+    rng = random.Random("%s:C12decl:%d:%s" % (seed, index, contest))
+    flavour = FLAVS[index % len(FLAVS)]
+    shape = W.SHAPES[(index // len(FLAVS)) % len(W.SHAPES)]
+    side = rng.randrange(2)
+    g = W.Gen(rng)
+    cont = g.contents
+    pre = [{"side": side, "op": "mkdir", "path": "late"},
+           {"side": side, "op": "create", "path": "late/f1.txt", "data": cont.fresh(side, 700)},
+           {"side": side, "op": "create", "path": "late/f2.txt", "data": cont.fresh(side, 12)},
+           {"side": side, "op": "mkdir", "path": "late/sub"},
+           {"side": side, "op": "create", "path": "late/sub/f3.txt", "data": cont.fresh(side, 3000)},
+           {"side": side, "op": "create", "path": "plain.txt", "data": cont.fresh(side, 700)},
+           {"side": side, "op": "create", "path": "control.txt", "data": cont.fresh(side, 12)},
+           {"side": side, "op": "mkdir", "path": "private"},
+           {"side": side, "op": "create", "path": "private/secret.txt", "data": cont.fresh(side, 12)}]
+    # the peer has a 'private' of its own
+    pre2 = [{"side": 1 - side, "op": "mkdir", "path": "private"},
+            {"side": 1 - side, "op": "create", "path": "private/peer.txt", "data": cont.fresh(1 - side, 12)},
+            {"side": 1 - side, "op": "create", "path": "private/secret.txt", "data": cont.fresh(1 - side, 700)}]
+    # per-side user models of the declined zones + the shared model of the rest
+    zone = [dict(), dict()]
+    for op in pre:
+        if _in_zone(op["path"], DECL_ZONES):
+            v = ("dir",) if op["op"] == "mkdir" else ("file", op["data"])
+            zone[side][op["path"]] = v
+            if _in_zone(op["path"], ("late",)):
+                zone[1 - side][op["path"]] = v          # synchronised before the flip
+    for op in pre2:
+        zone[1 - side][op["path"]] = ("dir",) if op["op"] == "mkdir" else ("file", op["data"])
+    shared = {"plain.txt": ("file", pre[5]["data"]), "control.txt": ("file", pre[6]["data"])}
+    sched = []
+    n_new = [0]
+    moved_in = False
+
+    # files synchronised before the flip exist on both sides: unless the case is a 'contest' each of them is edited by one
+    # side only afterwards (both sides editing the same one is finding K23)
+    owner = {k: rng.randrange(2) for k, v in zone[side].items() if v[0] == "file" and _in_zone(k, ("late",))}
+    contested = set()
+    touched = [set(), set()]
+
+    def files(s, z):
+        return sorted(k for k, v in zone[s].items() if v[0] == "file" and _in_zone(k, (z,))
+                      and (contest or owner.get(k, s) == s))
+
+    def touch(s, p):
+        if p in owner:
+            touched[s].add(p)
+            if p in touched[1 - s]:
+                contested.add(p)
+
+    for _ in range(rng.randrange(3, 9)):
+        r = rng.random()
+        s = side if rng.random() < 0.7 else 1 - side
+        z = rng.choice(DECL_ZONES)
+        op = None
+        if r < 0.25 and files(s, z):
+            p = rng.choice(files(s, z))
+            op = {"side": s, "op": "write", "path": p, "data": cont.fresh(s, rng.choice((12, 700)))}
+            zone[s][p] = ("file", op["data"])
+            touch(s, p)
+        elif r < 0.4 and files(s, z):
+            p = rng.choice(files(s, z))
+            op = {"side": s, "op": "delete", "path": p}
+            del zone[s][p]
+            touch(s, p)
+        elif r < 0.6:
+            n_new[0] += 1
+            p = "%s/n%d.txt" % (z, n_new[0])
+            op = {"side": s, "op": "create", "path": p, "data": cont.fresh(s, rng.choice((12, 700)))}
+            zone[s][p] = ("file", op["data"])
+        elif r < 0.75 and files(s, z):
+            p = rng.choice(files(s, z))
+            n_new[0] += 1
+            to = "%s/r%d.txt" % (z, n_new[0])
+            op = {"side": s, "op": "rename", "path": p, "to": to}
+            zone[s][to] = zone[s].pop(p)
+            touch(s, p)
+        elif r < 0.85 and not moved_in and "plain.txt" in shared:
+            # a synchronised file is moved into a declined zone on the acting side; what happens to the peer's copy of
+            # 'plain.txt' is not asserted (the property does not say), only that nothing is written inside the zones
+            to = "%s/plain.txt" % z
+            op = {"side": side, "op": "rename", "path": "plain.txt", "to": to}
+            zone[side][to] = shared.pop("plain.txt")
+            moved_in = True
+        else:
+            # control: an ordinary synchronised file keeps synchronising
+            op = {"side": side, "op": "write", "path": "control.txt", "data": cont.fresh(side, 700)}
+            shared["control.txt"] = ("file", op["data"])
+        sched.append(["U", op])
+        sched.extend(g.gap(shape))
+    return {"family": "DECL%d" % side, "flavour": flavour, "shape": shape, "pre": pre, "pre2": pre2, "sched": sched,
+            "zone": zone, "shared": shared, "moved_in": moved_in, "index": index, "sim_seed": rng.getrandbits(32),
+            "k23": bool(contested)}
+
+
+def run_decl(case, acc=None, count=True):
+    acc = acc or Acc()
+    from vlib import load as _load
+    flip = {"late": False}
+
+    def translate(cs, side, path):
+        root = cs.roots[1 - side]
+        rel = cs.providers[1 - side].is_subpath(root, path)
+        zones = ("private", "late") if flip["late"] else ("private",)
+        if rel and _in_zone(rel, zones):
+            return None
+        return type(cs).__mro__[1].translate(cs, side, path)
+
+    n_unh0 = len(_load.unhandled)
+    sim = S.Sim(case["flavour"], rng=random.Random(case["sim_seed"]), translate=translate)
+    probs = []
+    try:
+        for op in case["pre"] + case["pre2"]:
+            rec = sim.user(op)
+            if not rec.get("ok"):
+                acc.errors.append("DECL pre-op rejected: %r" % (rec,))
+                return None
+        sim.quiesce()
+        L = sim.tree(int(case["family"][-1]))
+        P = sim.tree(1 - int(case["family"][-1]))
+        if "late/sub/f3.txt" not in P or "private/peer.txt" in L or \
+                P.get("private/secret.txt") == L.get("private/secret.txt"):
+            probs.append(("before_flip_zone_not_as_expected", sorted(P)[:12]))
+        flip["late"] = True
+        since = len(sim.world.calls)
+        for e in case["sched"]:
+            if e[0] == "U":
+                rec = sim.user(e[1])
+                if not rec.get("ok"):
+                    # the history is model-generated: an op can only be rejected when the engine changed what it names
+                    probs.append(("user_op_rejected_engine_changed_its_target", {k: rec.get(k) for k in ("side", "op", "path", "exc")}))
+            elif e[0] in ("E0", "E1", "S"):
+                sim.step(e[0])
+            elif e[0] == "Q":
+                sim.quiesce()
+        try:
+            steps = sim.quiesce()
+        except S.NotQuiescent as x:
+            probs.append(("not_quiescent", str(x)))
+            steps = None
+        unh = [u for u in _load.unhandled[n_unh0:] if u[1] != "Crash"]
+        del _load.unhandled[n_unh0:]
+        if unh:
+            probs.append(("exception_escaped_step", unh[:2]))
+        nwrites = 0
+        for c in sim.world.calls[since:]:
+            if c["op"] not in S.WRITES or not (c.get("ok") and c.get("ev")):
+                continue
+            nwrites += 1
+            root = sim.roots[c["side"]]
+            for p in [c.get("path")] + ([c["to"]] if c.get("to") else []):
+                if p and p.startswith(root + "/") and _in_zone(p[len(root) + 1:], DECL_ZONES):
+                    probs.append(("engine_write_inside_declined_zone", O.brief_call(c)))
+                    break
+        side = int(case["family"][-1])
+        if steps is not None:
+            for s in (0, 1):
+                t = sim.tree(s)
+                got = {k: v for k, v in t.items() if _in_zone(k, DECL_ZONES)}
+                want = case["zone"][s]
+                if got != {k: tuple(v) for k, v in want.items()}:
+                    ks = sorted(k for k in set(got) | set(want) if got.get(k) != (tuple(want[k]) if k in want else None))
+                    probs.append(("declined_zone_differs_from_its_own_side_user_model",
+                                  "origin" if s == side else "peer", [(k, O.short(want.get(k)), O.short(got.get(k))) for k in ks[:3]]))
+                rest = {k: v for k, v in t.items() if not _in_zone(k, DECL_ZONES)}
+                want_rest = {k: tuple(v) for k, v in case["shared"].items()}
+                if case["moved_in"] and s != side:
+                    rest.pop("plain.txt", None)         # not asserted either way
+                if rest != want_rest:
+                    ks = sorted(k for k in set(rest) | set(want_rest) if rest.get(k) != want_rest.get(k))
+                    probs.append(("undeclined_part_not_synchronised", "origin" if s == side else "peer",
+                                  [(k, O.short(want_rest.get(k)), O.short(rest.get(k))) for k in ks[:3]]))
+        if count:
+            acc.evaluations += 1
+            acc.count("decl_cases")
+            acc.count("decl_user_ops", len([e for e in case["sched"] if e[0] == "U"]))
+            acc.count("decl_engine_writes_after_flip", nwrites)
+            acc.count("engine_steps", sim.steps)
+            acc.add("flavours", case["flavour"])
+            acc.sigs.add("decl:" + W.signature(dict(case, base=[])))
+        return probs
+    except Exception:           # noqa   harness error: never a verdict
+        acc.errors.append(S.fmt_exc())
+        return None
+    finally:
+        sim.close()
